@@ -71,6 +71,7 @@ export const TEXT_PROBES = [
   { id: "literal-key-on-index-signature", text: 'type X = Record<string, number>["x"];', cases: [[1, "Y"], ["s", "N"]] },
   { id: "literal-key-next-to-named-keys", text: 'type R = { a: string; [k: string]: string | number };\ntype X = R["b"];', cases: [[1, "Y"], ["s", "Y"], [true, "N"]] },
   { id: "unknown-inside-computed-type", text: "type Resp = { data: unknown; n: number };\ntype X = Exclude<Resp | null, null>;", cases: [[{ data: fn0, n: 1 }, "Y"], [{ n: 1 }, "Y"], [{ data: 1 }, "N"]] },
+  { id: "exclude-over-a-recursive-member", text: 'type Tree = { v: string; kids: Tree[] };\ntype X = Exclude<{ x: Tree } | "b" | "c", "b">;', cases: [[{ x: { v: "a", kids: [] } }, "Y"], ["c", "Y"], ["b", "N"]] },
   { id: "tuple-rest-in-the-middle", text: "type X = [string, ...number[], boolean];", expect: "diagnostic" },
   { id: "mapped-type-as-clause", text: 'type X = { [K in "a" | "b" as `x_${K}`]: string };', expect: "diagnostic" },
   { id: "optional-key-named-like-a-prototype-member", text: "type X = { toString?: string; a: number };", cases: [[{ a: 1 }, "Y"], [{ a: 1, toString: "s" }, "Y"], [{ a: 1, toString: 1 }, "N"]] },
